@@ -94,6 +94,10 @@ Scenarios ==
   { [Scenario("fwd", "h2", "normal", TRUE, ph, "vf.test", "absent", <<"curl/8">>, FALSE, "GET", "/a", ls) EXCEPT !.scheme = "http"] :
       ph \in BOOLEAN, ls \in SubSeqs(FwdLines, 1) }
   \cup
+  \* C09: an HTTP/2 request may carry a host header field next to :authority; "the Host the client addressed" is :authority (RFC 9113 8.3.1)
+  { Scenario("fwd", "h2", "normal", TRUE, ph, "vf.test", "absent", <<"curl/8">>, FALSE, "GET", "/a", <<L("Host", "elsewhere.example", "lower")>> \o ls) :
+      ph \in BOOLEAN, ls \in SubSeqs(FwdLines, 1) }
+  \cup
   \* C15: probe predicate
   { Scenario("probe", p, "normal", pr, FALSE, "vf.test", "absent", ua, pt, m, pa, <<>>) :
       p \in Protos, pr \in BOOLEAN, ua \in UAs, pt \in BOOLEAN, m \in {"GET", "POST"}, pa \in {"/healthz", "/a?x=kube-probe/1"} }
